@@ -269,6 +269,17 @@ theorem sign_path_shape :
       "secp256k1.Sign: sig[64] += 27",
       "eth_crypto/secp256k1.Sign: sig[64] = byte(recid)"] := rfl
 
+/-- `eth_tx.Sender`: cached address returned only when the cached signer `Equal`s the current one
+    (EIP-155: same chain id); the cache is written only after a successful derivation. -/
+theorem sender_cache_shape :
+    senderCacheBody = ["if sc := tx.from.Load(); sc != nil { sigCache := sc.(sigCache) if sigCache.signer.Equal(signer) { return sigCache.from, nil } }",
+      "addr, err := signer.Sender(tx)",
+      "if err != nil { return common.Address{}, err }",
+      "tx.from.Store(sigCache{signer: signer, from: addr})",
+      "return addr, nil",
+      "eip155, ok := s2.(EIP155Signer)",
+      "return ok && eip155.chainId.Cmp(s.chainId) == 0"] := rfl
+
 theorem signer_call_order :
     eip155SenderCalls = ["tx.Protected", "HomesteadSigner{}.Sender", "tx.ChainId().Cmp", "tx.ChainId",
       "new(big.Int).Sub", "new", "V.Sub", "recoverPlain", "s.Hash"] ∧
